@@ -3,9 +3,84 @@ import ShelxModel.C15
 open Lean Shelx.J
 
 namespace Shelx.Drv.C15
+open Shelx.C15
+
+def pi : Float := 3.141592653589793
+
+/-- CPython: `math.degrees(x) = x * (180.0 / pi)`, `math.radians(x) = x * (pi / 180.0)`;
+    `round(x, 9)` is modelled to the last-but-one bit only (observations are compared with a tolerance) -/
+def floatTrans : Trans Float where
+  sqrt := Float.sqrt
+  acos := Float.acos
+  deg := fun x => x * (180.0 / pi)
+  round9 := fun x => Float.round (x * 1000000000.0) / 1000000000.0
+  atan2 := Float.atan2
+
+def radians (x : Float) : Float := x * (pi / 180.0)
+
+def v3 (j : Json) : Except String (V3 Float) := do
+  match ← floats j with
+  | [x, y, z] => return ⟨x, y, z⟩
+  | _ => err "expected 3 numbers"
+
+/-- `CELL`: a b c alpha beta gamma (degrees) -> what `OrthogonalMatrix`/`atomic_distance` compute from it -/
+def cellOf (j : Json) : Except String (Cell Float) := do
+  match ← floats j with
+  | [a, b, c, al, be, ga] =>
+    let ca := Float.cos (radians al)
+    let cb := Float.cos (radians be)
+    let cg := Float.cos (radians ga)
+    -- vol_unitcell: a * b * c * sqrt(1 + 2 ca cb cg - ca**2 - cb**2 - cg**2)
+    let v := a * b * c * Float.sqrt (1 + 2 * ca * cb * cg - ca * ca - cb * cb - cg * cg)
+    return { a, b, c, ca, cb, cg, sg := Float.sin (radians ga), v }
+  | _ => err "expected 6 cell parameters"
+
+def atomOf (j : Json) : Except String (AtomN Float) := do
+  return { frac := ← field j "f" >>= v3, part := ← intField j "part", qpeak := ← boolField j "q" }
+
+def optNats : Option (List Nat) → Json
+  | none => Json.null
+  | some l => Json.arr (l.map ofNat).toArray
+
+def sgn (x : Float) : Int := if x > 0 then 1 else if x < 0 then -1 else 0
 
 def handle (j : Json) : Except String Json := do
   let op ← strField j "op"
-  err s!"C15: unknown op {op}"
+  let T := floatTrans
+  match op with
+  | "angle" =>
+    match ← (← arrField j "pts").mapM v3 with
+    | [p1, p2, p3] =>
+      return Json.mkObj [("model", ofFloat (angleModel T p1 p2 p3)), ("spec", ofFloat (specAngle T p1 p2 p3)),
+                         ("cos", ofFloat (angleCos T p1 p2 p3))]
+    | _ => err "angle: expected 3 points"
+  | "torsion" =>
+    match ← (← arrField j "pts").mapM v3 with
+    | [p1, p2, p3, p4] =>
+      return Json.mkObj [("model", ofFloat (torsionModel T p1 p2 p3 p4)), ("spec", ofFloat (specTorsion T p1 p2 p3 p4)),
+                         ("cos", ofFloat (torsionCos T p1 p2 p3 p4)),
+                         ("dir", ofInt (sgn (direction p1 p2 p3 p4))),
+                         ("dir_typo", ofInt (sgn (directionTypo (p2.sub p1) (p3.sub p2) (p4.sub p3)))),
+                         ("triple", ofInt (sgn (triple (p2.sub p1) (p3.sub p2) (p4.sub p3))))]
+    | _ => err "torsion: expected 4 points"
+  | "dist" =>
+    let C ← field j "cell" >>= cellOf
+    match ← (← arrField j "fracs").mapM v3 with
+    | [f1, f2] =>
+      return Json.mkObj [("model", ofFloat (namedDistance T C f1 f2)), ("spec", ofFloat (specDistance T C f1 f2)),
+                         ("metric", ofFloat (metricDist T C f1 f2))]
+    | _ => err "dist: expected 2 sites"
+  | "cart" =>
+    let C ← field j "cell" >>= cellOf
+    let fs ← (← arrField j "fracs").mapM v3
+    return Json.arr (fs.map fun f => let p := cart C f; ofFloats [p.x, p.y, p.z]).toArray
+  | "around" =>
+    let C ← field j "cell" >>= cellOf
+    let atoms ← (← arrField j "atoms").mapM atomOf
+    let i ← natField j "i"
+    let d ← floatField j "d"
+    let part ← intField j "part"
+    return Json.mkObj [("model", optNats (findAround T C atoms i d part)), ("spec", optNats (specAround T C atoms i d part))]
+  | _ => err s!"C15: unknown op {op}"
 
 end Shelx.Drv.C15
